@@ -11,7 +11,7 @@ blank line, data cards.  `respell(text, rng, kinds)` returns a text that MCNP re
   message       a message block (and its blank-line terminator) before the title
   numbers       Fortran spellings of real numbers (1.5 -> 1.5e0, 15.0-1, .15+1, 1.5D0) in surface parameters, TR entries,
                 material fractions and densities
-  shorthand     nR shorthand in IMP data cards
+  shorthand     nR / nI / nM shorthand in IMP data cards, nR in TR cards and in the universes of FILL arrays
 """
 import re
 
@@ -136,12 +136,10 @@ def _split(line, rng):
     return out
 
 
-def _shorthand(line, rng):
-    toks = line.split()
-    if not toks or not toks[0].lower().startswith('imp:'):
-        return line
-    out = [toks[0]]
-    i = 1
+def _repeat(toks, rng):
+    """runs of equal tokens -> `x nR`"""
+    out = []
+    i = 0
     while i < len(toks):
         j = i
         while j + 1 < len(toks) and toks[j + 1] == toks[i]:
@@ -152,7 +150,52 @@ def _shorthand(line, rng):
         else:
             out += toks[i:j + 1]
         i = j + 1
-    return ' '.join(out)
+    return out
+
+
+def _interpolate_multiply(toks, rng):
+    """a a+d a+2d (integers spelled as reals) -> `a 1i a+2d`;  x 2x -> `x 2m`  (only exact cases)"""
+    vals = []
+    for t in toks:
+        try:
+            vals.append(float(t))
+        except ValueError:
+            return toks
+    out, i = [], 0
+    while i < len(toks):
+        if i + 2 < len(toks) and vals[i + 1] - vals[i] == vals[i + 2] - vals[i + 1] != 0 and rng.random() < 0.6 \
+                and all(v == int(v) for v in vals[i:i + 3]):
+            out += [toks[i], '1i' if rng.random() < 0.5 else '1I', toks[i + 2]]
+            i += 3
+        elif i + 1 < len(toks) and vals[i] != 0 and vals[i + 1] == 2 * vals[i] and rng.random() < 0.6:
+            out += [toks[i], '2m' if rng.random() < 0.5 else '2M']
+            i += 2
+        else:
+            out.append(toks[i])
+            i += 1
+    return out
+
+
+def _shorthand(line, rng):
+    toks = line.split()
+    if not toks:
+        return line
+    head = toks[0].lower()
+    if head.startswith('imp:'):
+        body = _interpolate_multiply(toks[1:], rng) if rng.random() < 0.5 else toks[1:]
+        return ' '.join([toks[0]] + _repeat(body, rng))
+    if head.lstrip('*').startswith('tr') and rng.random() < 0.5:
+        return ' '.join([toks[0]] + _repeat(toks[1:], rng))
+    return line
+
+
+def _shorthand_fill_array(line, rng):
+    """FILL=lo:hi ... u u u  ->  u 2r  (the universes of a FILL array are read like a data card)"""
+    m = re.search(r'(?i)(fill=(?:-?\d+:-?\d+ ?)+)((?:\d+ ?)+)', line)
+    if not m or rng.random() < 0.4:
+        return line
+    univs = m.group(2).split()
+    return line[:m.start(2)] + ' '.join(_repeat(univs, rng)) + (' ' if m.group(2).endswith(' ') else '') + line[m.end(2):]
 
 
 def respell(text, rng, kinds=KINDS):
@@ -179,8 +222,10 @@ def respell(text, rng, kinds=KINDS):
             l2 = line
             if 'numbers' in kinds:
                 l2 = _respell_numbers(l2, kind, rng)
-            if 'shorthand' in kinds and kind == 'data':
+            if 'shorthand' in kinds and kind in ('data', 'tr'):
                 l2 = _shorthand(l2, rng)
+            if 'shorthand' in kinds and kind == 'cell':
+                l2 = _shorthand_fill_array(l2, rng)
             if 'case' in kinds:
                 l2 = _flip_case(l2, rng)
             if 'blanks' in kinds:
